@@ -107,7 +107,7 @@ Next == \E k \in Kinds, a \in Args, oi \in OneShots :
 Spec == Init /\ [][Next]_mvars
 
 (* Refinement: every implementation step is the contract's Call with the reported outcome. *)
-ContractStep == C!Call(last'.k, last'.r, last'.hc, last'.th, last'.oi, proj', os', 0, 0, 0, last'.r, 0, 0)
+ContractStep == C!Call(last'.k, last'.r, last'.hc, last'.th, last'.oi, proj', os', 0, 0, 0, last'.r, 0, 0, 0)
 RefinesContract == [][ContractStep]_mvars
 
 (* the headline invariant, stated directly as well *)
